@@ -448,15 +448,14 @@ Lemma track_cap_listings tau m cap nt g : forall d st d',
 Proof.
   induction g as [|t g IH]; intros d st d' H; cbn [track_cap] in H.
   - injection H as <-. lia.
-  - cbn [List.length]. destruct (cap_allows tau cap st t) as [[|]|]; [| |discriminate].
-    + destruct (relevant tau m t).
-      * destruct (to t) as [o|? ?]; [|discriminate].
-        destruct nt as [n|].
-        -- match type of H with (if ?b then _ else _) = _ => destruct b end.
-           ++ injection H as <-. rewrite listings_annot. lia.
-           ++ apply IH in H. rewrite listings_annot in H. lia.
+  - cbn [List.length]. destruct (relevant tau m t); [|apply IH in H; lia].
+    destruct (cap_allows tau cap st t) as [[|]|]; [| |discriminate].
+    + destruct (to t) as [o|? ?]; [|discriminate].
+      destruct nt as [n|].
+      * match type of H with (if ?b then _ else _) = _ => destruct b end.
+        -- injection H as <-. rewrite listings_annot. lia.
         -- apply IH in H. rewrite listings_annot in H. lia.
-      * apply IH in H. lia.
+      * apply IH in H. rewrite listings_annot in H. lia.
     + apply IH in H. lia.
 Qed.
 
@@ -960,8 +959,8 @@ Section TrackerClasses.
     induction g as [|t g IH]; intros d st I Hg Hd; cbn [track_cap].
     - intros E. injection E as <-. assumption.
     - assert (Hg' : forall t', In t' g -> In t' Gall) by (intros t' Ht'; apply Hg; right; assumption).
-      destruct (cap_allows tau cap st t) as [[|]|]; [| apply IH; assumption | discriminate].
       destruct (relevant tau m t) eqn:Hr; [|apply IH; assumption].
+      destruct (cap_allows tau cap st t) as [[|]|]; [| apply IH; assumption | discriminate].
       destruct (to t) as [o|c dt] eqn:Eo; [|discriminate].
       assert (Hd' : Forall listing_ok (dupd d (nid (ts t)) [] (fun cs => cs ++ [nid o]))).
       { apply listing_ok_add; [assumption | apply Hg; left; reflexivity | exact (relevant_tau tau m t Hr) | exact Eo]. }
@@ -1003,15 +1002,14 @@ Lemma track_cap_total tau m cap nt g : forall d st,
 Proof.
   induction g as [|t g IH]; intros d st Hg; cbn [track_cap]; [eauto|].
   assert (Hg' : typing_ok tau g) by (intros t' Ht'; apply Hg; right; assumption).
-  unfold cap_allows. destruct (str_eqb (tp t) tau) eqn:Ep; cbn [negb].
-  - apply str_eqb_eq in Ep. pose proof (Hg t (or_introl eq_refl) Ep) as Hn.
-    destruct (to t) as [o|? ?]; [|discriminate].
-    destruct (dget (cc st) (nid o)) as [n|]; [destruct (Nat.ltb n cap)|]; cbv beta iota;
-      try (apply IH; assumption);
-      (destruct (relevant tau m t); [|apply IH; assumption];
-       destruct nt as [nt0|]; [|apply IH; assumption];
-       match goal with |- context [if ?b then inl _ else _] => destruct b end; [eauto | apply IH; assumption]).
-  - rewrite (relevant_tp tau m t Ep). apply IH; assumption.
+  destruct (relevant tau m t) eqn:Hr; [|apply IH; assumption].
+  pose proof (relevant_tau tau m t Hr) as Ep. pose proof (Hg t (or_introl eq_refl) Ep) as Hn.
+  unfold cap_allows. rewrite (proj2 (str_eqb_eq _ _) Ep). cbn [negb].
+  destruct (to t) as [o|? ?]; [|discriminate].
+  destruct (dget (cc st) (nid o)) as [n|]; [destruct (Nat.ltb n cap)|]; cbv beta iota;
+    try (apply IH; assumption);
+    (destruct nt as [nt0|]; [|apply IH; assumption];
+     match goal with |- context [if ?b then inl _ else _] => destruct b end; [eauto | apply IH; assumption]).
 Qed.
 
 Theorem track_total tau m cap g : typing_ok tau g -> exists I, track tau m cap g = inl I.
